@@ -464,7 +464,7 @@ func (p *PathExpr) CommentGroup() (head, leading CommentGroup) {
 }
 
 func (p *PathExpr) Format(prefix ...string) string {
-	pathNode := transferTokenNode(p.Value, ignoreComment())
+	pathNode := transferTokenNode(p.Value, ignoreHeadComment())
 	return pathNode.Format(prefix...)
 }
 
